@@ -3,7 +3,7 @@
 # 1. verifies a seeded change independently in a fresh scratch worktree (builds, existing tests pass,
 #    demo fails with / passes without); 2. applies it to /repo, runs the named checks, restores /repo;
 # 3. stores patch, demo and meta.json under /verif/seeded/<seed-id>/.
-[ -z "$VERIF_NOLOCK" ] && exec env VERIF_NOLOCK=1 flock -x /tmp/.verif-repo.lock "$0" "$@"
+[ -z "$VERIF_NOLOCK" ] && exec env VERIF_NOLOCK=1 VERIF_SCRATCH=/tmp/verif-scratch flock -x /tmp/.verif-repo.lock "$0" "$@"
 wt=$1; sid=$2; prop=$3; shift 3; checks=${@:-$prop}
 export GOFLAGS=-mod=mod GOPROXY=off
 [ -s "$wt/MUTANT.diff" ] || { echo "no MUTANT.diff in $wt"; exit 2; }
